@@ -1,6 +1,9 @@
 package codecs
 
 import (
+	"net/http"
+	"net/url"
+
 	verif "verifmod/zzverif"
 )
 
@@ -203,4 +206,36 @@ func VerifC11TimeDecoder() {
 	case field != "day" || kind != "str":
 		verif.Assert("C11/time/undecodable-value-never-accepted", false)
 	}
+}
+
+// VerifC11BinderRejectsTrailingData: a request body that is a complete JSON document followed
+// by further non-blank data is not a JSON document: the binder of the emitted server rejects
+// it for messages with and without a generated decoder (it is never "decoded up to the first
+// value" and dispatched).
+func VerifC11BinderRejectsTrailingData() {
+	custom := verif.Bool("customDecoder")
+	key := "v" // Small{v}
+	if custom {
+		key = "name" // Int64Msg{name}
+	}
+	first := verif.JObj(key, verif.JStr(verif.String("text", 2)))
+	body := first
+	trailing := verif.Bool("trailing")
+	if trailing {
+		body = verif.JTrailing(first)
+	}
+	r := &http.Request{Method: "POST", Header: http.Header{"Content-Type": []string{"application/json"}}, URL: &url.URL{Path: "/x"}}
+	r.Body = verif.Body(body)
+	var err error
+	if custom {
+		err = bindDataFromJSONRequest(r, &Int64Msg{})
+	} else {
+		err = bindDataFromJSONRequest(r, &Small{})
+	}
+	if trailing {
+		verif.Assert("C11/binder/trailing-data-rejected", err != nil)
+	} else {
+		verif.Assert("C11/binder/well-formed-body-accepted", err == nil)
+	}
+	verif.Reach("C11/binder/decided")
 }
